@@ -85,6 +85,8 @@ def expected(srcval, case):
     tt = tuple(case['tt'])
     if case['st'][0] == 'pybool' and tt[0] in mv.VECK:
         srcval = mv.INT(int(srcval.v))     # Python's True / False are the integers 1 / 0
+    if case['st'][0] == 'str' and tt[0] == 'bit' and len(case['st'][1]) == 1:
+        return MV('bit', None, int(case['st'][1]))      # a one character string is a Bit literal (Bit('1') is documented)
     return mv.convert(srcval, tt[0], tt[1])
 
 
@@ -287,7 +289,7 @@ def run_case(case):
     if f == 'port_out' and not must_reject:
         pass
     silent = (not must_reject) and any(e is None for _, e in vals)
-    klass = f"{st[0]}->{tt[0]}" + (':narrower' if (st[1] or 0) > (tt[1] or 0) and st[0] == tt[0] else '')
+    klass = f"{st[0]}->{tt[0]}" + (':narrower' if st[0] == tt[0] and isinstance(st[1], int) and isinstance(tt[1], int) and st[1] > tt[1] else '')
     key = digest(st, q, tt, f)
     mod = load_source(src, 'c05')
     try:
